@@ -138,3 +138,15 @@ def ordMap {V W} (m : Assoc V) (merged : Assoc W) : List (Option Nat) :=
   m.map (fun e => termOrd merged e.1)
 
 end TantivyModel.SSTable
+
+namespace TantivyModel.SSTable
+
+/-- keys of a list of ordinals, stopping at the first ordinal that does not exist -/
+def sortedOrdsSpec {V} (m : Assoc V) : List Nat → List Key × Bool
+  | [] => ([], true)
+  | o :: rest =>
+    match m[o]? with
+    | none => ([], false)
+    | some e => let r := sortedOrdsSpec m rest; (e.1 :: r.1, r.2)
+
+end TantivyModel.SSTable
